@@ -959,6 +959,16 @@ func runFraming(h *H, cuts bool) {
 					runCmds(cmds, litPlus, false, "nonsync-header-in-discarded-line")
 				}
 			}
+			// (3b) the same at the end of a long discarded line: the header lies anywhere relative to
+			// the 4096-byte units in which the server's buffered reader delivers an overlong line
+			for pad := 4020; pad <= 4100; pad += h.Pick(2, 1) {
+				cmds := []fCmd{login(), {Tag: newTag(), Name: "FROB", Trailer: " " + strings.Repeat("p", pad) + fmt.Sprintf(" {%d+}", len(octets)), After: octets}, {Tag: newTag(), Name: "NOOP"}}
+				runCmds(cmds, litPlus, false, "nonsync-header-in-long-discarded-line")
+			}
+			for _, pad := range []int{8170, 8185, 8190, 8192, 12280} {
+				cmds := []fCmd{login(), {Tag: newTag(), Name: "FROB", Trailer: " " + strings.Repeat("p", pad) + fmt.Sprintf(" {%d+}", len(octets)), After: octets}, {Tag: newTag(), Name: "NOOP"}}
+				runCmds(cmds, litPlus, false, "nonsync-header-in-long-discarded-line")
+			}
 			// (4) AUTHENTICATE whose initial response is followed by the header of a
 			// non-synchronising literal (AUTHENTICATE is outside the byte-level model)
 			octets = "Z7 LOGIN u p\r\nZ8 CREATE fromoctets\r\n"
